@@ -19,7 +19,7 @@ RULE = ('a variadic probe function returns a token that encodes exactly what mem
 DISTINCT = ('config_cells',)
 REQUIRED = ('wrapper_calls', 'signatures', 'repeat_calls_served_from_cache', 'key_pairs_compared', 'expiry_cases',
             'expire_zero_cases', 'falsy_results', 'decorator_cache', 'decorator_fanout', 'decorator_index',
-            'decorator_django', 'decorator_stampede', 'derived_name_cases')
+            'decorator_django', 'decorator_stampede', 'derived_name_cases', 'contended_first_calls')
 ASSUMPTIONS = ('two calls are "the same arguments" when positional/keyword binding matches and values are equal under == '
                '(and have equal types when typed); ignored positions/names are removed first',
                'memoize_stampede: the probe runs in ~0 virtual time so early recomputation has probability ~0')
@@ -307,6 +307,68 @@ def extras(dc, sc, res, kind, label):
         sc.drop(d)
 
 
+def contended_store(dc, sc, res, kind, label):
+    """The first call of a memoized function finds the cache locked by another connection; the lock goes away after the
+    k-th failed attempt.  The call must still return the function's value, and a repeated call must be served from the
+    cache (memoize stores with retry)."""
+    import os
+    from . import c14
+    for k in (1, 3):
+        d = sc.new()
+        if kind == 'cache':
+            obj = dc.Cache(d, timeout=0)
+            deco, dirs = (lambda f: obj.memoize()(f)), [d]
+        elif kind == 'fanout':
+            obj = dc.FanoutCache(d, shards=2, timeout=0)
+            deco, dirs = (lambda f: obj.memoize(typed=True)(f)), [os.path.join(d, '%03d' % i) for i in range(2)]
+        elif kind == 'index':
+            obj = dc.Index.fromcache(dc.Cache(d, timeout=0, eviction_policy='none'))
+            deco, dirs = (lambda f: obj.memoize()(f)), [d]
+        elif kind == 'django':
+            from diskcache import DjangoCache
+            obj = DjangoCache(d, {'SHARDS': 2, 'DATABASE_TIMEOUT': 0})
+            deco, dirs = (lambda f: obj.memoize()(f)), [os.path.join(d, '%03d' % i) for i in range(2)]
+        else:
+            obj = dc.Cache(d, timeout=0)
+            deco, dirs = (lambda f: dc.memoize_stampede(obj, 1000)(f)), [d]
+        calls = []
+
+        def slow_square(x, unit='m'):
+            calls.append(x)
+            return ('result', x * x, unit)
+        wrapped = deco(slow_square)
+        holder = c14.Holder(dirs)
+        ctrl = c14.LockFault(holder, 'release_after', k)
+        wit = {'label': label, 'kind': kind, 'lock_released_after_failed_attempts': k}
+        try:
+            holder.take()
+            probe.set_controller(ctrl)
+            try:
+                got = ('ok', wrapped(7))
+            except Exception as exc:      # noqa: BLE001
+                got = ('raise', '%s: %s' % (type(exc).__name__, exc))
+            probe.set_controller(None)
+            holder.release()
+            res.count('evaluations')
+            res.count('contended_first_calls')
+            if got != ('ok', ('result', 49, 'm')):
+                res.violation('%s: the first call of a memoized function under a held lock gave %r, the function returns %r' % (
+                    kind, got, ('result', 49, 'm')), wit)
+                continue
+            again = wrapped(7)
+            if again != ('result', 49, 'm') or calls != [7]:
+                res.violation('%s: the result computed under a held lock was not stored: a repeated call returned %r and the '
+                              'function ran %d times' % (kind, again, len(calls)), dict(wit, failed_attempts_seen=ctrl.failed))
+        finally:
+            probe.set_controller(None)
+            holder.close()
+            try:
+                (obj.cache if kind == 'index' else obj).close()
+            except Exception:      # noqa: BLE001
+                pass
+            sc.drop(d)
+
+
 def run_shard(tier, seed, shard, nshards, res):
     dc = common.use_repo()
     probe.install()
@@ -327,3 +389,4 @@ def run_shard(tier, seed, shard, nshards, res):
         for j, kind in enumerate(('cache', 'fanout', 'index', 'django', 'stampede')):
             if j % nshards == shard % 5:
                 extras(dc, sc, res, kind, 'c16 extras %s' % kind)
+                contended_store(dc, sc, res, kind, 'c16 contended store %s' % kind)
